@@ -54,7 +54,7 @@ SIM_CHECKS = [
     ("C30", "model_checking", "Trace_Worker.tla computes, from the recorded write / reception times, the number of full deadline periods that elapsed per instance (Missed) and accepts an observed offered/requested deadline-missed total_count only inside [count one worker period earlier, count now]; every listener callback must carry total_count = k and total_count_change = 1 and be justified by a missed period; at the end every missed period must have been signalled. Timing patterns (gaps of 0.3..3.7 periods, 1-2 instances, deadlines 20 ms..1 s, simultaneous writes) run on the real worker with the virtual clock.", "5.5, 6 C30"),
     ("C31", "model_checking", "Every duration the worker passes to Timer::delay is recorded by the simulated timer and Trace_Worker.tla requires 0 <= d <= 50 ms on each of them, in scenario families that make each time_until_* term the minimum, including already overdue ones (deadlines shorter than the worker period, lifespans, blocked writes released by a lease expiry long after the lifespan of the blocked sample, lease expiry, announcements), also with a virtual clock that moves between two reads inside one worker iteration (clock-drift family: 0.7 / 100 / 300 us per read); Timeout of a blocked write within max_blocking_time + one period is judged by Trace_Rtps (C27 family).", "5.5, 6 C31"),
     ("C06", "model_checking", "Adversary.tla describes the datagrams an adversary can send: every RTPS submessage kind (DATA, DATA_FRAG, HEARTBEAT, HEARTBEAT_FRAG, GAP, ACKNACK, NACK_FRAG, INFO_TS/DST/SRC/REPLY/REPLY_IP4, PAD, unknown, vendor specific) with each field ranging over its default and boundary alternatives (sequence numbers 0, -1, 2^32, 2^63-1, -2^63; bitmap sizes up to 2^32-1 with missing/surplus words; fragment numbers/sizes 0, 65535, 2^32-1; lengths zero/short/beyond the datagram/odd; payloads and parameter lists empty, truncated, unterminated, with huge collection lengths, spoofed GUIDs), source prefix known/unknown/victim/zero, user and built-in (SPDP, SEDP, liveliness, type lookup) target endpoints, header and truncation variants, INFO_* prefixes. TLC enumerates all messages with at most two fields off their default (7 760); the harness encodes each byte by byte (own encoder) and injects it into a victim participant with live reliable endpoints in both directions inside the simulation; Inject must be a stuttering step for well behaved peers: no panic, no hang (wall-clock watchdog), heap growth <= 100 x datagram length + 4 MB (counting allocator), and afterwards a fresh participant must discover, match and exchange a sample in each direction with the victim; traces are validated by TLC against Trace_Adversary.tla. Quick: all single-field variants, header/truncation/prefix variants and a seeded quarter of the two-field variants; thorough: all.", "6 C06"),
-    ("C26", "model_checking", "Trace_Filter.tla: a writer publishes samples of the related topic; on another participant a reader on a content filtered topic (member = %0 or member <= %0 on an INT32 key, an INT32 member or a STRING member, several spellings of the expression) and a control reader on the related topic take samples. Rules: every presented sample was written, is unchanged, passes the filter and is presented once; at the end every passing sample the related topic delivered was presented by the filtered reader. Scenario families: bursts, gaps, seeded loss/duplication/reordering, TRANSIENT_LOCAL late joiners and 'batched' (the simulated network merges the held datagrams of the writer into one RTPS message with several DATA submessages, as a batching peer would send them); traces validated event by event by TLC.", "6 C26"),
+    ("C26", "model_checking", "Trace_Filter.tla: a writer publishes samples of the related topic; on another participant a reader on a content filtered topic (member = %0 or member <= %0 on an INT32 key, an INT32 member or a STRING member, several spellings of the expression) and a control reader on the related topic take samples; in every second scenario a second filtered reader of the same subscriber with the same expression and another parameter takes samples too and is judged by its own filter. Rules: every presented sample was written, is unchanged, passes the filter and is presented once; at the end every passing sample the related topic delivered was presented by the filtered reader. Scenario families: bursts, gaps, seeded loss/duplication/reordering, TRANSIENT_LOCAL late joiners and 'batched' (the simulated network merges the held datagrams of the writer into one RTPS message with several DATA submessages, as a batching peer would send them); traces validated event by event by TLC.", "6 C26"),
     ("C27", "model_checking", sim_text("Decides that a reliable KEEP_LAST write evicts only acknowledged samples, blocks otherwise and times out within max_blocking_time + one worker period."), "5.1, 6 C27"),
     ("C29", "model_checking", sim_text("Decides that no DATA/DATA_FRAG of a sample is emitted after source timestamp + lifespan (first transmission, repair, history)."), "5.1, 6 C29"),
 ]
@@ -75,7 +75,7 @@ OTHER_CHECKS = [
      "5.6, 6 C33", "Trusted: TLC; recording listeners; a listener object is installed wherever a mask is non-empty; liveliness / sample-lost / inconsistent-topic statuses are not raised.",
      "TLA+ dispatch function enumerated exhaustively by TLC; each configuration replayed end-to-end in the deterministic simulation"),
     ("C35", "model_checking",
-     "Entities.tla models the entity tree with one action per public create/delete/use call; TLC enumerates all histories of <= 5 operations over 3 publishers, 2 subscribers, a topic, a writer and a reader, and every transition is replayed through the async API on a participant whose 8-bit publisher/subscriber counters were first advanced to 254, so that the counter wraps inside every replayed history: after every operation all simultaneously existing entities must have distinct instance handles, the call must return (a panic or stall of the worker is a violation) and give the specified result.",
+     "Entities.tla models the entity tree with one action per public create/delete/use call; TLC enumerates all histories of <= 5 operations over 3 publishers, 2 subscribers, a topic, a writer and a reader, and every transition is replayed through the async API on a participant whose 8-bit publisher/subscriber counters were first advanced to 254, so that the counter wraps inside every replayed history: the action Churn (255 create/delete cycles of publishers and subscribers INSIDE the history) lets the counters go once around while the entities created so far are alive; after every operation all simultaneously existing entities must have distinct instance handles, the call must return (a panic or stall of the worker is a violation) and give the specified result.",
      "5.8, 6 C35", GRAPH_NOTE + " The 16-bit topic/reader/writer counters are not warmed to their wrap (65 536 creations per replay is too slow); RTPS GUIDs are not compared separately (the handle of these entities is their GUID).",
      "explicit TLA+ spec + TLC; every transition replayed through the public API in the deterministic simulation after counter warm-up"),
     ("C08", "model_checking",
@@ -100,7 +100,7 @@ OTHER_CHECKS = [
      "explicit TLA+ spec + TLC (exhaustive interleavings of the timer thread and sleepers); wall-clock traces of the real timer under concurrent stress validated by TLC against the trace specification"),
     ("C28", "model_checking",
      "WriterInst.tla: one action per DataWriterAsync call (register_instance, unregister_instance, dispose, write, lookup_instance, enable) on a writer created on a keyed or keyless type, enabled or not yet enabled; the abstract state is the set of registered keys; TLC enumerates all histories of <= 6 calls over 2 keys (39 states, 325 transitions) and every transition is replayed on a real writer inside the deterministic simulation: return code, returned handle (= big-endian key padded to 16 bytes) and, after every step, lookup_instance of every key are compared.",
-     "6 C28", GRAPH_NOTE + " max_instances/OutOfResources and the handle argument of write/dispose/unregister are outside the model; lookup_instance on a keyless type is not constrained.",
+     "6 C28", GRAPH_NOTE + " RESOURCE_LIMITS.max_instances is in the model (configuration MC_WriterInst_limit: a known instance never needs a new entry, a new one is refused with OutOfResources at the limit; dust-dds keeps the entry of an unregistered instance, the model follows the code); the handle argument of write/dispose/unregister is ignored by the implementation and not modelled; lookup_instance on a keyless type is not constrained.",
      "explicit TLA+ spec + TLC; every transition replayed through the public API in the deterministic simulation"),
     ("C37", "model_checking",
      "Qos.tla: QoS values are records of the policies the rules talk about (reliability, history, resource limits, deadline, time based filter, representation, user/topic/group data, presentation, partition); Consistent and ImmutableChanged are defined per entity kind; actions Create / SetQos / Enable with the DDS return code, the QoS held afterwards and what a remote participant sees (Announced). TLC enumerates all histories of <= 4 calls over curated value sets that hit every rule (6 kinds: writer, reader, topic, publisher, subscriber, participant; 170 states, 1 004 transitions; invariants AlwaysConsistent, ImmutableKept). Every transition is replayed on real entities inside the deterministic simulation with two participants: return code, get_qos and the QoS read from the second participant's built-in readers (DCPSPublication, DCPSSubscription, DCPSTopic, DCPSParticipant) are compared after every step.",
@@ -116,7 +116,7 @@ OTHER_CHECKS = [
      "explicit TLA+ spec + TLC; every transition replayed on the real object"),
     ("C34", "model_checking",
      "Channels.tla models the oneshot, mpsc and notification channels with one action per critical section of the code (send, clone, drop of a sender, poll with a waker id); TLC checks ExactlyOnceFifo and NoLostWakeup for all interleavings (<= 2 senders, 3 sends, 4 polls, 2 wakers) and every transition is replayed on the real channels with counting wakers: poll results, received values and wake-up counts are compared after every step.",
-     "5.7, 6 C34", GRAPH_NOTE + " Linearizability of poll against a concurrent send / drop of the last sender is tested with a real second thread released at the waker clone inside poll (PollRacing: either order is accepted, a Pending without wake-up while the value is queued is not). ChannelsA.tla: Apalache proves NoLostWakeup /\\ Fifo inductive for the mpsc design (unbounded numbers of operations); the split-poll variant must fail (thorough).",
+     "5.7, 6 C34", GRAPH_NOTE + " Linearizability of poll against a concurrent send / drop of the last sender is tested with a real second thread released at the waker clone inside poll (PollRacing: either order is accepted, a Pending without wake-up while the value is queued is not), and the converse with a second thread that polls the receiver the moment the sender calls wake() (SendWokenRuns: the woken task runs at once and must find the value). ChannelsA.tla: Apalache proves NoLostWakeup /\\ Fifo inductive for the mpsc design (unbounded numbers of operations); the split-poll variant must fail (thorough).",
      "explicit TLA+ spec + TLC exhaustive; every transition replayed on the real channels"),
     ("C15", "model_checking",
      "Compat.tla states the DDS request/offered table and the partition matching rule as operators; TLC enumerates every pair of policy groups over all their abstract values (15 050 QoS records) and 693 partition-list pairs with the specification's verdict; both compatibility functions of the code are evaluated on every record (exhaustive) and sampled records / partition pairs are created as real writer/reader pairs in the deterministic simulation, where both sides must reach the specification's verdict.",
